@@ -302,6 +302,8 @@ def c11(ctx):
     lh_models(ctx)
     # a scan interleaved with writers on the model: truthful and complete for untouched keys;
     # an iterator that caches the bucket count at creation must be refuted
+    # the address arithmetic behind the scan's monotonicity argument, for real-sized levels and hashes
+    ctx.model_check("LHArith.tla", "cfg/lharith.cfg", workers=1, timeout=1800)
     ctx.model_check("LHScan.tla", "cfg/lhscan.cfg", timeout=3000)
     ctx.model_check("LHScan.tla", "cfg/lhscan_cached.cfg", expect_violation="CompleteForUntouched", timeout=900)
     outs = seq_jobs(ctx, "scan-steps", 12, 3 if q else 24, 300, 90, ALLFS, ["-scans"])
